@@ -79,6 +79,38 @@ theorem C05_int_roundtrip (env : Env) (tbl : List Entry) (fuel : Nat) (i : Int) 
   refine ⟨.int, [okLeaf], ?_, C05_ints_described env tbl fuel _ i⟩
   simp [recognize, recognizeReq, recScalar, representScalar, recOk]
 
+/-! ## the shapes the representers produce (for classes without `_yatiml_sweeten`): exactly the node shapes
+that `RTcore` describes — an enum member is its name, a string-like its text, a list a `!!seq` of the
+represented items, a dict a `!!map` of the represented pairs, a user object a `!!map` of its attributes
+(parameters, then the extra attributes) -/
+
+theorem C05_represent_enum (denv : DumpEnv) (f : Nat) (c name : String) (d : DumpClass)
+    (hd : denv.find c = some d) (hs : d.sweetenMro = none) :
+    represent denv (f + 1) (.enumMember c name) = .ok ⟨.scalar tStr name gen, []⟩ := by
+  simp [represent, hd, hs]
+
+theorem C05_represent_stringlike (denv : DumpEnv) (f : Nat) (c s : String) (d : DumpClass)
+    (hd : denv.find c = some d) (hs : d.sweetenMro = none) :
+    represent denv (f + 1) (.userStr c s) = .ok ⟨.scalar tStr s gen, []⟩ := by
+  simp [represent, hd, hs]
+
+theorem C05_represent_list (denv : DumpEnv) (f : Nat) (xs : PyVals) (ns : List Node) (tr : List String)
+    (h : repItems (represent denv f) xs.toList = .ok (ns, tr)) :
+    represent denv (f + 1) (.list xs) = .ok ⟨.seq tSeq (Nodes.ofList ns) gen, tr⟩ := by
+  simp [represent, h]
+
+theorem C05_represent_dict (denv : DumpEnv) (f : Nat) (kvs : PyKVs) (ps : List (Node × Node)) (tr : List String)
+    (h : repPairs (represent denv f) kvs.toList = .ok (ps, tr)) :
+    represent denv (f + 1) (.dict kvs) = .ok ⟨.map tMap (Pairs.ofList ps) gen, tr⟩ := by
+  simp [represent, h]
+
+theorem C05_represent_object (denv : DumpEnv) (f : Nat) (c : String) (kw : PyKVs) (d : DumpClass)
+    (ps : List (Node × Node)) (tr : List String) (hd : denv.find c = some d)
+    (hown : d.sweetenOwn = none) (hbases : d.bases.filterMap (fun b => denv.find b) = [])
+    (h : repPairs (represent denv f) (attributesOf kw.toList) = .ok (ps, tr)) :
+    represent denv (f + 1) (.obj c kw) = .ok ⟨.map tMap (Pairs.ofList ps) gen, tr ++ []⟩ := by
+  simp [represent, hd, h, sweeten, hown, hbases]
+
 /-- a string, whatever its text, loads back as that string when a `str` is expected -/
 theorem C05_string_roundtrip (env : Env) (tbl : List Entry) (fuel : Nat) (s : String) :
     ∃ calls trace processed,
